@@ -163,6 +163,10 @@ fn cli_pair(bin: &std::path::Path, case: &Case, rf: &crate::refmodel::RefOut, t:
     }
     let mut args_full = args.clone();
     args_full.push("-F".into());
+    // the default run also saves the factor set it worked with
+    let of = dir.join("of.csv");
+    args.push("--of".into());
+    args.push(of.display().to_string());
     let r1 = cli::run(bin, &args, 20_000);
     let r2 = cli::run(bin, &args_full, 20_000);
     t.evaluations += 2;
@@ -198,6 +202,26 @@ fn cli_pair(bin: &std::path::Path, case: &Case, rf: &crate::refmodel::RefOut, t:
             });
         }
         t.count("cli_reports_compared");
+        // "what the command-line tool does by default": the set the default run worked with (saved with --of) is
+        // the library's simplification of the prepared set for this building
+        let key = |f: &cteepbd::types::Factor| format!("{}, {}, {}, {}", f.carrier, f.source, f.dest, f.step);
+        let saved = std::fs::read_to_string(&of).unwrap_or_default();
+        if let (crate::safe::Out::Ok(sf), crate::safe::Out::Ok(full), crate::safe::Out::Ok(comps)) = (crate::safe::parse_factors(&saved), crate::safe::guard(|| case.fac.build()), crate::safe::parse_components(&case.spec.to_text())) {
+            let mut got: Vec<String> = sf.wdata.iter().map(key).collect();
+            let mut want: Vec<String> = full.strip(&comps).wdata.iter().map(key).collect();
+            got.sort();
+            want.sort();
+            if got != want {
+                let extra: Vec<&String> = got.iter().filter(|k| !want.contains(k)).take(4).collect();
+                let missing: Vec<&String> = want.iter().filter(|k| !got.contains(k)).take(4).collect();
+                t.violation("C08.cli_default_is_not_the_simplified_set", format!("the default run worked with {} factors, the simplified set has {} (not simplified: {:?}; missing: {:?})", got.len(), want.len(), extra, missing), || {
+                    let mut w = wit();
+                    w["saved_factors"] = json!(saved);
+                    w
+                });
+            }
+            t.count("cli_default_factor_sets_compared");
+        }
     }
     let _ = std::fs::remove_dir_all(&dir);
 }
@@ -259,9 +283,16 @@ pub fn run(ctx: &Ctx) -> Report {
                 }
             }
         }
+        if r.chance(1, 25) {
+            // no EPB use at all (only non-EPB consumption and / or production): the simplification must keep what the
+            // exports to non-EPB uses need
+            crate::gen::without_epb_use(&mut case.spec, r);
+            t.count("cases_without_any_epb_use");
+        }
         check_case(ctx, &case, t, idx % cli_every == 0);
     });
     let mut quotas = vec![
+        ("cases_without_any_epb_use".to_string(), tally.get("cases_without_any_epb_use"), 100),
         ("cases_where_something_was_stripped".to_string(), tally.get("cases_where_something_was_stripped"), 1000),
         ("feature.first_line_is_output_energy".to_string(), tally.get("feature.first_line_is_output_energy"), 300),
         ("feature.aux_only_electricity".to_string(), tally.get("feature.aux_only_electricity"), 100),
@@ -272,6 +303,7 @@ pub fn run(ctx: &Ctx) -> Report {
     ];
     if ctx.cli_debug.is_some() {
         quotas.push(("cli_reports_compared".to_string(), tally.get("cli_reports_compared"), 50));
+        quotas.push(("cli_default_factor_sets_compared".to_string(), tally.get("cli_default_factor_sets_compared"), 50));
     }
     Report {
         tally,
